@@ -215,7 +215,8 @@ def pending_string_symptom(text, toks, mismatched, gaps):
             q = m.group()[-1]
             body = rest.rstrip("\r\n")
             closed = re.match(rf"(?:[^{q}\\]|\\.)*{q}", body)
-            continued = line.endswith("\\\n") or line.endswith("\\\r\n")
+            stem = line.removesuffix("\n").removesuffix("\r")
+            continued = len(stem) < len(line) and (len(stem) - len(stem.rstrip("\\"))) % 2 == 1  # an unescaped backslash before the line end
             if closed or continued:
                 return False
             starts[pos] = m.group()
